@@ -227,7 +227,7 @@ def run(tier: str, replay=None) -> int:
         else:
             seed_part(chk, 4)
         return chk.finish()
-    lattice_part(chk, rng, 700 if tier == "quick" else 12000, 8 if tier == "quick" else 14)
+    lattice_part(chk, rng, 700 if tier == "quick" else 6000, 8 if tier == "quick" else 14)
     seed_part(chk, 4 if tier == "quick" else 6)
     from . import c14_combos
     c14_combos.run(chk, tier, rng)
